@@ -38,10 +38,14 @@ def run(tier):
     for dt in ("f32", "u8", "i16"):
         P.append(progs.stats_program(rng, x, dt, 700000 if dt == "f32" else 300000, geometry=(0, 0, 0, 0), nreq=30))
         x += 1
+    # the stored summary entries themselves, lifted from the bytes of each file (levels whose entries span <= 4096 samples)
+    for p_ in P:
+        p_["ops"].append({"op": "sumvals", "file": "a"})
     trace, v, other = apicheck.run_api(ck, P, "c02", {"C02"}, per_program_timeout=120)
     nreq = sum(1 for l in open(trace) if l.startswith('{"e":"RdStats"'))
     ck.cov["distinct_nontrivial"] = sum(1 for l in open(trace) if l.startswith('{"e":"RdStats"') and '"rc":0' in l)
     ck.cov["requests"] = nreq
+    ck.cov["summary_chunks_judged"] = sum(1 for l in open(trace) if l.startswith('{"e":"SumEntries"'))
     ck.cov["rule"] = "one case per jls_rd_fsr_statistics request; non-trivial = the request succeeded and its entries were judged against the closed-form window statistics"
     ck.cov["samples"] = [l.strip()[:300] for l in open(trace) if l.startswith('{"e":"RdStats"')][:2]
     ck.assumptions += ["truth has a closed form only for the structured streams used (ramps, 0/1 patterns); floating-point rounding on arbitrary values is not decided (DESIGN section 7)",
